@@ -151,7 +151,7 @@ func main() {
 		}
 	}
 	run := common.NewRun("C06")
-	run.Res.Rule = "cases = programs of the C06 mini-language (call tree of functions func(a int)(r int) over print / call / defer f(arg) / defer of a function literal held in a variable, a struct field or a slice / defer fmt.Println / defer delete / defer panic(v) / defers in loops / panic(value of 3 types) / 7 run-time fault kinds / recover / recovered value compared (==) or type-asserted (string, int, error) against a value / re-panic of the recovered value / named-result assignment), generated from a seeded grammar in three streams (dom: inside the proved domain; dpanic: the same with deferred callees that panic often — several per frame, nested, in loops; heldrec: a held literal may call recover() itself, the one modelled divergence class F06-7; in every stream deferred callees may panic with other deferred calls pending, and a call / defer argument may be the named result variable, which is assigned before and after), plus raw-source regressions of repaired findings (F06-1: every argument kind at the three defer sites; F07: panics in deferred calls; F06-3: type assertions, type switches, comparisons, errors.Is, re-panic chains on recovered values, and the dynamic type of interp.Panic.Value seen by the host; F06-4: defer panic(v); F06-2: literals held in variables / fields / slices / maps, deferred or called from deferred closures), each generated program rendered to Go source with callees as literals, named functions, value and pointer methods, run by yaegi in two driving styles (main run by Eval; definitions then Eval of a call) and compiled natively; the status of a run that ends in a panic carries the printed value and its dynamic type (yaegi: %T of interp.Panic.Value; model: the value's constructor; compiled Go: determined by the text, the generator's strings, errors and ints being textually disjoint); non-trivial = contains at least one defer statement and one panic/fault; distinct = distinct protocol line"
+	run.Res.Rule = "cases = programs of the C06 mini-language (call tree of functions func(a int)(r int) over print / call / defer f(arg) / defer of a function literal held in a variable, a struct field or a slice / defer fmt.Println / defer fmt.Println(slice...) / defer delete / defer panic(v) / defers in loops / panic(value of 3 types) / 7 run-time fault kinds / recover / recovered value compared (==) or type-asserted (string, int, error) against a value / re-panic of the recovered value / named-result assignment), generated from a seeded grammar in three streams (dom: inside the proved domain; dpanic: the same with deferred callees that panic often — several per frame, nested, in loops; heldrec: a held literal may call recover() itself, the one modelled divergence class F06-7; in every stream deferred callees may panic with other deferred calls pending, and a call / defer argument may be the named result variable, which is assigned before and after), plus raw-source regressions of repaired findings (F06-1: every argument kind at the three defer sites; F07: panics in deferred calls; F06-3: type assertions, type switches, comparisons, errors.Is, re-panic chains on recovered values, and the dynamic type of interp.Panic.Value seen by the host; F06-4: defer panic(v); F06-2: literals held in variables / fields / slices / maps, deferred or called from deferred closures; deferred variadic calls with an ellipsis at both sites and receivers of deferred method calls), each generated program rendered to Go source with callees as literals, named functions, value and pointer methods, run by yaegi in two driving styles (main run by Eval; definitions then Eval of a call) and compiled natively; the status of a run that ends in a panic carries the printed value and its dynamic type (yaegi: %T of interp.Panic.Value; model: the value's constructor; compiled Go: determined by the text, the generator's strings, errors and ints being textually disjoint); non-trivial = contains at least one defer statement and one panic/fault; distinct = distinct protocol line"
 	defer run.Finish()
 	drv, err := common.StartDriver("C06")
 	if err != nil {
